@@ -11,7 +11,7 @@ ASSUMPTIONS = ['harness RESP reader and trace writer are correct',
 
 
 def run(ctx):
-    ctx.model_check('MC_Data', 'MC_C03', workers=8, timeout=1200)
+    ctx.model_check('MC_Data', 'MC_C03_full', workers=8, timeout=1200)
     paths = gen.generate_paths(ctx, 'MC_Data', 'MC_C03_gen', limit=3000 if ctx.quick else 40000)
     ctx.extra_cov['generated_paths'] = len(paths)
     srv = ctx.new_server()
